@@ -86,6 +86,16 @@ static void ascon128a_masked_aead_finalize
     ascon_trng_state_t *trng, uint64_t *preserve,
     const ascon_masked_key_128_t *k, unsigned char *tag)
 {
+#if ASCON_MASKED_DATA_SHARES == 1
+    /* The random number generator acquires the permutation for itself,
+     * so take a copy of the plain state and release it while the
+     * state is converted back into the key shares form */
+    unsigned char x1[40];
+    int index;
+    ascon_extract_bytes(state_x1, x1, 0, sizeof(x1));
+    ascon_release(state_x1);
+#endif
+
     /* Refresh the randomness for the final permutation call */
 #if ASCON_MASKED_KEY_SHARES == 2
     preserve[0] = ascon_trng_generate_64(trng);
@@ -100,7 +110,10 @@ static void ascon128a_masked_aead_finalize
 
     /* Convert the data shares form back into the key shares form */
 #if ASCON_MASKED_DATA_SHARES == 1
-    ascon_copy_key_from_x1(state, state_x1, trng);
+    for (index = 0; index < 5; ++index)
+        ascon_masked_key_load(&(state->M[index]), x1 + index * 8, trng);
+    ascon_clean(x1, sizeof(x1));
+    ascon_acquire(state_x1);
 #elif ASCON_MASKED_DATA_SHARES == 2
     ascon_copy_key_from_x2(state, trng);
 #elif ASCON_MASKED_DATA_SHARES == 3
